@@ -110,8 +110,9 @@ Definition parseIndexExpression (i : nat) : outcome (node * nat) :=
     end.
 
 Section Body.
-(* parseExpression one level of nesting further down *)
+(* parseExpression and continueExpression with one unit of fuel less *)
 Variable pe : Z -> nat -> outcome (node * nat).
+Variable ce : node -> Z -> nat -> outcome (node * nat).
 
 (* parseMultiSelectList *)
 Fixpoint msl_loop (g : nat) (acc : list node) (i : nat) : outcome (node * nat) :=
@@ -157,16 +158,26 @@ Definition parseDotRHS (bp : Z) (i : nat) : outcome (node * nat) :=
   if tok_eqb la tQuotedIdentifier || tok_eqb la tUnquotedIdentifier || tok_eqb la tStar then
     pe (bp_of site_parseDotRHS_parseExpression tUnknown bp) i
   else if tok_eqb la tLbracket then
-    i1 <- match_ i tLbracket ;; parseMultiSelectList i1
+    i1 <- match_ i tLbracket ;;
+    '(lft, i2) <- parseMultiSelectList i1 ;;
+    ce lft (bp_of site_parseDotRHS_continueExpression tUnknown bp) i2
   else if tok_eqb la tLbrace then
-    i1 <- match_ i tLbrace ;; parseMultiSelectHash i1
+    i1 <- match_ i tLbrace ;;
+    '(lft, i2) <- parseMultiSelectHash i1 ;;
+    ce lft (bp_of site_parseDotRHS_continueExpression2 tUnknown bp) i2
   else syntaxError i.
 
 (* parseProjectionRHS *)
 Definition parseProjectionRHS (bp : Z) (i : nat) : outcome (node * nat) :=
   c <- current i ;;
   if binding_power c <? projection_stop then Ok (identity_node, i)
-  else if tok_eqb c tLbracket then pe (bp_of site_parseProjectionRHS_parseExpression tUnknown bp) i
+  else if tok_eqb c tLbracket then
+    next <- lookahead i 1 ;;
+    ok <- (if tok_eqb next tNumber || tok_eqb next tColon then Ok true
+           else if tok_eqb next tStar then l2 <- lookahead i 2 ;; Ok (tok_eqb l2 tRbracket)
+           else Ok false) ;;
+    if ok then pe (bp_of site_parseProjectionRHS_parseExpression tUnknown bp) i
+    else syntaxError i
   else if tok_eqb c tFilter then pe (bp_of site_parseProjectionRHS_parseExpression2 tUnknown bp) i
   else if tok_eqb c tDot then
     i1 <- match_ i tDot ;;
@@ -309,36 +320,38 @@ Definition led (tt : tokType) (n : node) (i : nat) : outcome (node * nat) :=
   | _ => syntaxError i
   end.
 
-(* the for loop of parseExpression *)
-Fixpoint led_loop (g : nat) (bp : Z) (lft : node) (i : nat) : outcome (node * nat) :=
-  match g with
-  | O => OutOfFuel
-  | S g' =>
-    cur <- current i ;;
-    if bp <? binding_power cur then
-      '(lft', i') <- led cur lft (S i) ;;
-      led_loop g' bp lft' i'
-    else Ok (lft, i)
-  end.
-
 End Body.
 
-(* parseExpression; fuel bounds the nesting depth *)
-Fixpoint parseExpression (fuel : nat) (bp : Z) (i : nat) : outcome (node * nat) :=
+(* parseExpression and continueExpression (its for loop); one unit of fuel per
+   nested call and per loop iteration *)
+Fixpoint parseExpression (fuel : nat) (bp : Z) (i : nat) {struct fuel} : outcome (node * nat) :=
   match fuel with
   | O => OutOfFuel
   | S f =>
     leftToken <- lookaheadToken i 0 ;;
-    '(lft, i1) <- nud (parseExpression f) leftToken (S i) ;;
-    led_loop (parseExpression f) (S (length ts)) bp lft i1
+    '(lft, i1) <- nud (parseExpression f) (continueExpression f) leftToken (S i) ;;
+    continueExpression f lft (bp_of site_parseExpression_continueExpression tUnknown bp) i1
+  end
+with continueExpression (fuel : nat) (lft : node) (bp : Z) (i : nat) {struct fuel} : outcome (node * nat) :=
+  match fuel with
+  | O => OutOfFuel
+  | S f =>
+    cur <- current i ;;
+    if bp <? binding_power cur then
+      '(lft', i') <- led (parseExpression f) (continueExpression f) cur lft (S i) ;;
+      continueExpression f lft' bp i'
+    else Ok (lft, i)
   end.
 
 End Tokens.
 
+(* enough for every token list (Proofs/ParserTotal.v) *)
+Definition parse_fuel (ts : list token) : nat := S (S (2 * length ts)).
+
 (* Parser.Parse *)
 Definition parse (e : bytes) : outcome node :=
   ts <- tokenize e ;;
-  '(parsed, i) <- parseExpression ts (S (length ts)) (bp_of site_Parse_parseExpression tUnknown 0) 0 ;;
+  '(parsed, i) <- parseExpression ts (parse_fuel ts) (bp_of site_Parse_parseExpression tUnknown 0) 0 ;;
   c <- current ts i ;;
   if negb (tok_eqb c tEOF) then syntaxError ts i else Ok parsed.
 
